@@ -2,9 +2,10 @@
 outcome in the canonical text form shared with harness/d_parse.go.
 
 op:      parse <seed> <hex input> <expected AST or ?>
-result:  ok <tag>:<payload> conts=<n> used=<n>      (used = bytes the scanner has read)
-         err parse <Go token type of the error> used=<n>
-         err litzero|litbig|ioeof used=<n>
+result:  ok <tag>:<payload> conts=<n> used=<n> cmd=<LastParsedCommand>    (used = bytes the scanner has read)
+         err parse <Go token type of the error> used=<n> tag=<LastParsedTag> cmd=<LastParsedCommand>
+             skip=<ok|eof> used2=<n>                (after ConsumeInvalidInput)
+         err ioeof used=<n>                          (input ended inside a literal)
          hang                                        (model: out of fuel at `fuelFor input`)
 AST text (no spaces): bytes = lower-case hex, `~` if empty; lists joined by `,`, `-` if empty;
 sequence sets `b:e,…` with `*` for 0; dates as Unix seconds (`time.Date` semantics), date-times
@@ -14,6 +15,7 @@ import GluonModel.Model.Parse.Grammar
 
 -- DIALECT: parse runParse
 -- DIALECT: parsebad runParse
+-- DIALECT: parsen runParseN
 namespace Gluon.Driver.DParse
 open Gluon.Parse
 
@@ -135,13 +137,18 @@ def showCommand (c : Command) : String := showHex c.tag ++ ":" ++ showCmd c.payl
 
 def showErr : PErr → String
   | .parse t => s!"parse {t.ord}"
-  | .litZero => "litzero"
-  | .litBig => "litbig"
   | .ioEOF => "ioeof"
   | .panic => "panic"
 
 def showRes (input : Bytes) : Res Command → String
-  | .ok c s => s!"ok {showCommand c} conts={s.conts} used={input.length - s.rest.length}"
+  | .ok c s =>
+    let cmd := lastParsedCommand (fuelFor input) (PState.init input)
+    s!"ok {showCommand c} conts={s.conts} used={input.length - s.rest.length} cmd={showHex cmd}"
+  | .err (.parse t) s =>
+    let tag := lastParsedTag (fuelFor input) (PState.init input)
+    let cmd := lastParsedCommand (fuelFor input) (PState.init input)
+    let (s2, ok) := consumeInvalidInput s
+    s!"err parse {t.ord} used={input.length - s.rest.length} tag={showHex tag} cmd={showHex cmd} skip={if ok then "ok" else "eof"} used2={input.length - s2.rest.length}"
   | .err e s => s!"err {showErr e} used={input.length - s.rest.length}"
   | .fuel => "hang"
 
@@ -154,8 +161,42 @@ def run (args : List String) : String :=
     | none => "bad-op"
   | _ => "bad-op"
 
+/-- one step of the reader loop of `startCommandReader`: `Parse`, and after a parser error
+`ConsumeInvalidInput`; `none` = the reader exits -/
+def sessionStep (total : Nat) (fuel : Nat) (s : PState) : String × Option PState :=
+  match parseLine fuel s with
+  | .ok c s' => (s!"ok {showCommand c} used={total - s'.rest.length}", some s')
+  | .err (.parse t) s' =>
+    let tag := lastParsedTag fuel s
+    let cmd := lastParsedCommand fuel s
+    if t == .eof then (s!"err parse {t.ord} used={total - s'.rest.length} tag={showHex tag} cmd={showHex cmd} exit", none)
+    else
+      let (s2, ok) := consumeInvalidInput s'
+      (s!"err parse {t.ord} used={total - s'.rest.length} tag={showHex tag} cmd={showHex cmd} skip={if ok then "ok" else "eof"}",
+        if ok then some s2 else none)
+  | .err e s' => (s!"err {showErr e} used={total - s'.rest.length} exit", none)
+  | .fuel => ("hang", none)
+
+def sessionRun (total fuel : Nat) : Nat → PState → List String
+  | 0, _ => ["more"]
+  | n + 1, s =>
+    match sessionStep total fuel s with
+    | (line, some s') => line :: sessionRun total fuel n s'
+    | (line, none) => [line]
+
+/-- `parsen <seed> <hex>`: the sequence of `Parse` results of one parser over the stream, as the session's
+reader loop produces them (at most 8) -/
+def runN (args : List String) : String :=
+  match args with
+  | _seed :: hex :: _ =>
+    match parseHex hex with
+    | some input => "|".intercalate (sessionRun input.length (fuelFor input) 8 (PState.init input))
+    | none => "bad-op"
+  | _ => "bad-op"
+
 end Gluon.Driver.DParse
 
 namespace Gluon.Driver
+def runParseN : List String → String := DParse.runN
 def runParse : List String → String := DParse.run
 end Gluon.Driver
